@@ -2,6 +2,7 @@ package main
 
 import (
 	"fmt"
+	"sync"
 	"go/token"
 	"go/types"
 	"os"
@@ -65,6 +66,8 @@ type Program struct {
 
 	funcByName map[string]*ssa.Function
 	summaries  map[string]interface{}
+	renamed    map[string]*ssa.Function
+	renameMu   *sync.Mutex
 }
 
 func baseEnv(cfg Config) []string {
@@ -174,7 +177,8 @@ func loadProgramOverlay(repoDir string, cfg Config, overlay map[string][]byte) (
 	prog.Build()
 
 	p := &Program{Cfg: cfg, RepoDir: repoDir, Fset: fset, Pkgs: pkgs, SSA: prog, NumPkgs: nAll,
-		funcByName: map[string]*ssa.Function{}, summaries: map[string]interface{}{}}
+		funcByName: map[string]*ssa.Function{}, summaries: map[string]interface{}{}, renamed: map[string]*ssa.Function{}, renameMu: &sync.Mutex{}}
+	progRegistry.Store(prog, p)
 	for _, pk := range pkgs {
 		if pk.PkgPath == zapPkgPath {
 			p.ZapPkg = pk
